@@ -131,10 +131,37 @@ func parseNode(dec *msgpack.Decoder, r *bytes.Reader, total int) (*Skeleton, err
 	}
 }
 
+// UnmarshalChecked is msgpack.Unmarshal for bytes a client controls (a stored
+// body, a patch value). The library sizes the slice or map of a generically
+// decoded array / map from the count in its header before it has read a single
+// element, so a header of five bytes announcing 2^32-1 elements asked for tens
+// of gigabytes and the process died with "out of memory" - nothing a handler
+// can recover from. One allocation-free structural pass first makes sure every
+// announced element is really there; what is left can only allocate in
+// proportion to the input.
+func UnmarshalChecked(data []byte, v any) error {
+	if err := msgpack.NewDecoder(bytes.NewReader(data)).Skip(); err != nil {
+		return err
+	}
+	return msgpack.Unmarshal(data, v)
+}
+
+// plausibleLen rejects an element count that the bytes still unread cannot hold
+// (every element takes at least one byte) before anything is sized from it.
+func plausibleLen(n int, r *bytes.Reader) error {
+	if n > r.Len() {
+		return fmt.Errorf("%w: %d elements announced, %d bytes left", ErrInvalidMsgpack, n, r.Len())
+	}
+	return nil
+}
+
 func parseMap(dec *msgpack.Decoder, r *bytes.Reader, total int) (*Skeleton, error) {
 	n, err := dec.DecodeMapLen()
 	if err != nil {
 		return nil, wrapInvalid(err)
+	}
+	if err := plausibleLen(n, r); err != nil {
+		return nil, err
 	}
 	skel := &Skeleton{Kind: KindMap, MapFields: make([]MapField, 0, n)}
 	for i := 0; i < n; i++ {
@@ -163,6 +190,9 @@ func parseArray(dec *msgpack.Decoder, r *bytes.Reader, total int) (*Skeleton, er
 	n, err := dec.DecodeArrayLen()
 	if err != nil {
 		return nil, wrapInvalid(err)
+	}
+	if err := plausibleLen(n, r); err != nil {
+		return nil, err
 	}
 	skel := &Skeleton{Kind: KindArray, ArrayItems: make([]*Skeleton, 0, n)}
 	for i := 0; i < n; i++ {
